@@ -330,6 +330,21 @@ theorem LInv.closed {s : State} (h : LInv s) (p : Peer) : LInv (closed s p) := b
         omega
   · exact h
 
+/-- `disconnect_peer(peer, None)` by itself (a query-less future of an inbound request failed). -/
+theorem LInv.inboundFailed {s : State} (h : LInv s) (p : Peer) : LInv (inboundFailed s p) := by
+  unfold Coordinator.inboundFailed
+  refine h.preserve_drop _ (disconnectPeer_shrT s p none) rfl ?_ ?_ (fun _ hf => hf)
+  · intro q p'
+    rw [cnt_disconnectPeer]
+    split
+    · unfold cnt; omega
+    · exact Nat.le_refl _
+  · rintro q p' ⟨hp, hq | ha⟩
+    · exact absurd hq (by simp)
+    · subst hp
+      rw [cnt_disconnectPeer, if_pos rfl]
+      unfold cnt; omega
+
 theorem LInv.subOpenFailure {s : State} (h : LInv s) (sid : Sid) : LInv (subOpenFailure s sid) := by
   unfold Coordinator.subOpenFailure
   split
@@ -1039,6 +1054,13 @@ theorem LInv.step {s s' : State} (h : LInv s) (hL : Ledger s) {l : Label} (hstep
   | subOpened sid => injection hstep with hstep; subst hstep; exact h.subOpened hL.idsNodup sid
   | subOpenFailure sid => injection hstep with hstep; subst hstep; exact h.subOpenFailure sid
   | result f r => injection hstep with hstep; subst hstep; exact h.execResult f r
+  | inbound p =>
+    injection hstep with hstep; subst hstep
+    unfold inbound
+    split
+    · exact h.subEngine (fun _ hx => hx) (Nat.le_refl _) rfl rfl rfl
+    · exact h
+  | inboundFailed p => injection hstep with hstep; subst hstep; exact h.inboundFailed p
 
 theorem LInv.reachable {s : State} (h : Reachable s) : LInv s := by
   induction h with
